@@ -354,8 +354,8 @@ type ScriptBackend struct {
 	// before it is processed: the place to make something happen "between read and handling"
 	onReceived func(n int)
 	received   int
-	queue    chan *packet.Message
-	wg       sync.WaitGroup
+	queue      chan *packet.Message
+	wg         sync.WaitGroup
 }
 
 func newScriptBackend(l *Log, s *RecSession) *ScriptBackend {
